@@ -68,6 +68,7 @@ def main():
     r.add_argument("file")
     a = sub.add_parser("all")
     a.add_argument("--tier", default="quick")
+    a.add_argument("--repo", default=None)
     args = ap.parse_args()
     if args.cmd == "check":
         sys.exit(run_check(args.prop.upper(), args.tier, args.no_cache, args.repo))
@@ -91,7 +92,7 @@ def main():
     if args.cmd == "all":
         worst = 0
         for p in CLAIMED:
-            rc = run_check(p, args.tier)
+            rc = run_check(p, args.tier, False, args.repo)
             worst = max(worst, rc)
         sys.exit(worst)
 
